@@ -410,6 +410,30 @@ func init() {
 		"encoding/binary.littleEndian.Uint16":    byteOrderGet(2),
 		"encoding/binary.littleEndian.Uint32":    byteOrderGet(4),
 		"encoding/binary.littleEndian.Uint64":    byteOrderGet(8),
+		// ctx.Err(): a deterministic function of the context (nil or the cancellation error)
+		"context.Context.Err": {pure: true, fn: func(fv *FuncVerifier, call *ast.CallExpr, args []Term, st *State) []Term {
+			fv.u.declare("fun:ctx_err", "(declare-fun ctx_err (Int) Int)\n(assert (forall ((c Int)) (>= (ctx_err c) 0)))")
+			c := args[0]
+			if c.Sort == nil {
+				c = Term{"0", sortInt}
+			}
+			fv.u.note("ctx.Err() modelled as a deterministic function of the context value")
+			return []Term{mk(&Sort{Name: "Int", Kind: KErr}, "(ctx_err %s)", c.S)}
+		}},
+		// slices.BinarySearch(s, x): a hit is a real occurrence; a miss proves absence only for a sorted slice
+		"slices.BinarySearch": {pure: false, fn: func(fv *FuncVerifier, call *ast.CallExpr, args []Term, st *State) []Term {
+			sl, x := args[0], args[1]
+			pos := fv.u.freshConst("bspos", sortInt)
+			found := fv.u.freshConst("bsfound", sortBool)
+			st.assume(mk(sortBool, "(and (<= 0 %s) (<= %s %s))", pos.S, pos.S, slLen(sl).S))
+			st.assume(implies(found, and(mk(sortBool, "(< %s %s)", pos.S, slLen(sl).S), eq(slAt(sl, pos), x))))
+			if sl.Sort.Elem.Kind == KInt {
+				sorted := mk(sortBool, "(forall ((i!b Int) (j!b Int)) (=> (and (<= 0 i!b) (< i!b j!b) (< j!b %s)) (<= (select %s i!b) (select %s j!b))))", slLen(sl).S, slArr(sl).S, slArr(sl).S)
+				absent := mk(sortBool, "(forall ((i!b Int)) (=> (and (<= 0 i!b) (< i!b %s)) (not (= (select %s i!b) %s))))", slLen(sl).S, slArr(sl).S, x.S)
+				st.assume(implies(and(sorted, not(found)), absent))
+			}
+			return []Term{pos, found}
+		}},
 		// first index of v in s, or -1
 		"github.com/samber/lo.IndexOf": {pure: false, fn: func(fv *FuncVerifier, call *ast.CallExpr, args []Term, st *State) []Term {
 			sl, v := args[0], args[1]
